@@ -15,20 +15,20 @@ from harness.lib import scen
 from harness.lib.core import VERIF, Ctx, Rng, lean_lock, run_driver
 from harness.rigs import config as R
 
-MANIFEST_DISABLED = "being adapted to F-22 fix ed113ec (configured re-install replaces the old instance)"
 MANIFEST = {
     "text": "Lean 4 proof about an executable model of the scenario loader (PrimaiteGame.from_config with the computer/server/switch/"
             "router/firewall from_config paths, software install, users, folders/files, links, agents with action maps): for EVERY "
             "well-formed scenario AST the loader builds exactly the inventory the configuration documentation declares - nodes and "
             "their attributes, interfaces and addresses, ACL rules at their stated positions (incl. the six firewall ACLs), routes, "
-            "software with options, users, folders/files, links with bandwidths, agents (C20_build_eq_declared_partial: under the "
-            "hypothesis that no software name is installed twice on a node; the full statement is refuted by "
-            "C20_build_eq_declared_counterexample = open finding F-22); for EVERY permutation of the entries of EVERY mapping "
+            "software with options, users, folders/files, links with bandwidths, agents (C20_build_eq_declared, full strength since the "
+            "F-22 repair: SoftwareManager.install replaces an installed namesake, proved as foldl installOne = last request per name; "
+            "C20_software_one_instance_per_name for EVERY node entry, well-formed or not; C20_configured_application_wins); "
+            "for EVERY permutation of the entries of EVERY mapping "
             "(network_interfaces, router ports, firewall ports, acl at both levels, action maps) the loader builds the same simulation "
             "or raises the same error (C20_key_order_irrelevant, from one lemma per mapping-iteration site of the regenerated site "
             "inventory; the ACL site reuses C07_add_commute); an episode schedule assembles variants(n mod len) then the base scenario "
             "(C20_schedule_assembles/_periodic/_key_order). Tie: Gen/Config.lean (site inventory, default constants, system-software "
-            "tables, firewall ACL table, scheduler shape, dead install guard) + rig R-cfg: generated scenario families and every shipped "
+            "tables, firewall ACL table, scheduler shape, shape of install/uninstall) + rig R-cfg: generated scenario families and every shipped "
             "scenario (incl. the episode-scheduled directories) -> real from_config -> inventory walked from the object graph, diffed with "
             "the driver's build and declared; permuted / reversed / re-serialised files compared by inventory and by seeded trajectory "
             "digest. PARTIAL: wireless routers, printers, airspace, the observation space and the office-lan node set are outside the "
